@@ -130,6 +130,7 @@ def check_equal(ctx, inst, ty=None):
             okp = paths is not None and len(paths) > 0
             for path in (paths or []):
                 kinds = {}
+                infeasible = False
                 for (sw, tb) in path:
                     ty = common.discr_place_ty(f, sw)
                     cnd = common.switch_cond(P, f, sw)
@@ -140,10 +141,15 @@ def check_equal(ctx, inst, ty=None):
                     labs = [common.variant_name(P, ty, val) for val, tgt in t_["arms"] if tgt == tb]
                     if not labs and t_["otherwise"] == tb:
                         listed = {common.variant_name(P, ty, x) for x, _ in t_["arms"]}
-                        labs = [x for x in (common.all_variants(P, ty) or []) if x not in listed]
+                        allv = common.all_variants(P, ty)
+                        labs = [x for x in (allv or []) if x not in listed]
+                        if allv and not labs:
+                            infeasible = True      # the `otherwise` edge of a switch that lists every variant (a `_ =>` arm) is dead
                     key = "|".join(sorted(ctx.roots(cnd[1])))
                     if len(labs) == 1:
                         kinds[key] = labs[0]
+                if infeasible:
+                    continue
                 ka, kb = kinds.get(P_(f, 0)), kinds.get(P_(f, 1))
                 if ka is None or kb is None or ka == kb:
                     okp = False
